@@ -18,6 +18,7 @@ ap.add_argument("prop"); ap.add_argument("i")
 ap.add_argument("--tier", default="quick")
 ap.add_argument("--skip-tests", action="store_true")
 ap.add_argument("--src", default=None)
+ap.add_argument("--as", dest="as_index", default=None, help="index to store the seed under")
 a = ap.parse_args()
 src = a.src or "/tmp/seed-%s-out" % a.prop
 diff = os.path.join(src, "change%s.diff" % a.i)
@@ -45,7 +46,7 @@ def rundemo(repo):
 
 
 d = tempfile.mkdtemp(prefix="sc-", dir="/tmp")
-meta = {"property": a.prop, "index": a.i, "when": time.strftime("%Y-%m-%d %H:%M:%S")}
+meta = {"property": a.prop, "index": a.as_index or a.i, "when": time.strftime("%Y-%m-%d %H:%M:%S")}
 try:
     repo = d + "/repo"
     subprocess.check_call(["rsync", "-a", "--exclude", ".git", "/repo/", repo + "/"])
@@ -80,7 +81,7 @@ try:
         if r.returncode == 1:
             break
     meta["check"] = res
-    prev_path = "/verif/seeded/%s-%s/meta.json" % (a.prop, a.i)
+    prev_path = "/verif/seeded/%s-%s/meta.json" % (a.prop, a.as_index or a.i)
     if a.skip_tests and os.path.exists(prev_path):
         prev = json.load(open(prev_path))
         for k in ("baseline_tests", "changed_tests", "tests_same_as_baseline"):
@@ -90,7 +91,7 @@ try:
             meta["first_run_missed"] = prev.get("check")
     meta["caught"] = any(v["rc"] == 1 for v in res.values())
     meta["confirmed"] = bool(rc0 == 0 and rc1 != 0 and meta.get("tests_same_as_baseline"))
-    out = "/verif/seeded/%s-%s" % (a.prop, a.i)
+    out = "/verif/seeded/%s-%s" % (a.prop, a.as_index or a.i)
     os.makedirs(out, exist_ok=True)
     shutil.copy(diff, out + "/patch.diff")
     shutil.copy(demo, out + "/demo.py")
